@@ -75,16 +75,22 @@ def density(desc, k):
     if upper is None:
         cut = _cutoff(rho, unit, d - 1)
         upper = cut / unit if cut is not None else None
+    def _plain(fun, hi):
+        """Non-oscillatory integral over [0, hi]: decade break points (structure at every scale from len_low to the cut-off)."""
+        if hi is None or not np.isfinite(hi):
+            return quad(fun, 0, 1.0, limit=800, epsabs=1e-15, epsrel=1e-12)[0] + quad(fun, 1.0, np.inf, limit=800, epsabs=1e-15, epsrel=1e-12)[0]
+        edges = [0.0] + [e for e in (1e-6, 1e-5, 1e-4, 1e-3, 1e-2, 0.1, 1.0, 10.0, 100.0, 1000.0) if e < hi] + [hi]
+        return sum(quad(fun, a, b, limit=400, epsabs=1e-16, epsrel=1e-12)[0] for a, b in zip(edges[:-1], edges[1:]))
+
     if d == 1:
         if upper is not None:
-            val = quad(g, 0, upper, weight="cos", wvar=kk, limit=800, epsabs=1e-15, epsrel=1e-12)[0] if kk > 0 else \
-                quad(g, 0, upper, limit=800, epsabs=1e-15, epsrel=1e-12)[0]
+            val = quad(g, 0, upper, weight="cos", wvar=kk, limit=800, epsabs=1e-15, epsrel=1e-12)[0] if kk > 0 else _plain(g, upper)
         else:
-            val = quad(g, 0, np.inf, weight="cos", wvar=kk, limit=800, epsabs=1e-13)[0] if kk > 0 else quad(g, 0, np.inf, limit=800)[0]
+            val = quad(g, 0, np.inf, weight="cos", wvar=kk, limit=800, epsabs=1e-13)[0] if kk > 0 else _plain(g, None)
         return val / math.pi * unit
     if d == 3:
         if kk == 0:
-            val = quad(lambda x: x * x * g(x), 0, upper if upper is not None else np.inf, limit=800, epsabs=1e-15, epsrel=1e-12)[0]
+            val = _plain(lambda x: x * x * g(x), upper)
             return val / (2 * math.pi**2) * unit**3
         if upper is not None:
             val = quad(lambda x: x * g(x), 0, upper, weight="sin", wvar=kk, limit=800, epsabs=1e-15, epsrel=1e-12)[0]
